@@ -117,6 +117,7 @@ def bounded(ctx):
     evals = 0
     distinct = set()
     from props.C01 import scenario
+    sweep = {x_[0] for x_ in enz[:2]} | {"BsaI"}
     for (name, e, site, a, k) in enz:
         for chain_len in (1, 2) if ctx.tier == "quick" else (1, 2, 3):
             if k == 1 and chain_len > 1:
@@ -125,10 +126,14 @@ def bounded(ctx):
             if sc is None:
                 continue
             Mod, Vec, vtext, mods, expected = sc
-            for trial in range(2 if ctx.tier == "quick" else 5):
+            rotsets = [(ba.rotate(vtext, rng.randrange(len(vtext))), [ba.rotate(t_, rng.randrange(len(t_))) for t_ in mods])
+                       for _ in range(2 if ctx.tier == "quick" else 5)]
+            if chain_len == 1 and (name in sweep or ctx.tier != "quick"):
+                # every rotation of the vector plasmid, then of the module plasmid (the origin on every boundary)
+                rotsets += [(ba.rotate(vtext, r_), list(mods)) for r_ in range(len(vtext))]
+                rotsets += [(vtext, [ba.rotate(mods[0], r_)] + list(mods[1:])) for r_ in range(len(mods[0]))]
+            for trial, (vt, mts) in enumerate(rotsets):
                 evals += 1
-                vt = ba.rotate(vtext, rng.randrange(len(vtext)))
-                mts = [ba.rotate(t_, rng.randrange(len(t_))) for t_ in mods]
                 # typing symmetry of each module
                 for t_ in mts:
                     m = Mod(CircularRecord(Seq(t_), id="m"))
@@ -170,7 +175,7 @@ def bounded(ctx):
     for v_ in viol:
         uniq.setdefault(v_["name"], v_)
     return dict(evaluations=evals, distinct_nontrivial=len(distinct),
-                rule="C01's input space (every enzyme / one per geometry in quick, chains of 1-2 (3), random rotations): each module "
+                rule="every rotation of the vector and of the module for two geometries (all in thorough); C01's input space (every enzyme / one per geometry in quick, chains of 1-2 (3), random rotations): each module "
                      "and vector versus its reverse complement (valid iff valid, overhangs exchanged and reverse-complemented, body "
                      "reverse-complemented) and the assembly of all reverse complements versus the reverse complement of the product "
                      "(up to rotation)", bound="2 (5) rotations per scenario", samples=samples,
